@@ -12,14 +12,20 @@ plan = list of actions:
   ["x", j, subplan]            call n_j(subplan) and swallow any exception
   ["r", url]                   obtain a resource handle
   ["raise"]                    raise ValueError
+  ["raise_nm"]                 raise an exception marked as not-to-be-memoized
   ["ctx", j, subplan, ctx]     call n_j.with_context_args(ctx)(subplan)      (ctx = dict or None)
   ["pfc", j, subplan]          call n_j.with_prevent_further_calls(True)(subplan), swallow RuntimeError of nested calls
 """
 import sys
 
 import twosigma.memento as m
+from twosigma.memento.exception import NonMemoizedException
 from twosigma.memento.resource import ResourceHandle
 from twosigma.memento.resource_function import resource_function
+
+
+class Transient(NonMemoizedException):
+    pass
 
 
 @resource_function(resource_type="vf")
@@ -51,6 +57,8 @@ def _interp(me, plan, kwargs):
             out.append("res:" + act[1])
         elif k == "raise":
             raise ValueError("boom in %s" % me)
+        elif k == "raise_nm":
+            raise Transient("transient failure in %s" % me)
         elif k == "ctx":
             if act[3] is not None:
                 f = nodes[act[1]].with_context_args({k2: (n3 if v == "@fn" else v) for k2, v in act[3].items()})
